@@ -8,13 +8,16 @@ urwid's own `validate_size`:
   size-as-requested    box: canvas = (cols, rows) asked; flow: cols asked x rows((cols,)) (asked before
                        *and* after the render); fixed: canvas = pack(())
   rows-rectangular     len(list(canvas.content())) == canvas.rows(); every content row is exactly
-                       canvas.cols() screen columns wide, measured twice: with urwid.util.calc_width on each
+                       canvas.cols() screen columns wide, measured twice: with urwid's calc_width on each
                        text segment, and with this file's own width rule (decode in the target encoding;
                        East-Asian wide/fullwidth = 2, combining/format = 0, DEC/alternate charset segment =
-                       one column per byte)
+                       one column per byte, control characters / half characters = undisplayable)
   cursor-inside        canvas.cursor is None or (x, y) with 0 <= x < cols and 0 <= y < rows
   pack-succeeds        (auxiliary) pack(size) on the flow/box sizes raises nothing
   depth3-sampled       all clauses above on a seeded sample of depth-3 trees (detail names the clause)
+  aux-reported-mode-of-illformed-tree
+                       (auxiliary, literal reading) modes that sizing() reports for trees that are ill-formed
+                       by urwid's documentation -- see `demands` below; switch off with REPORT_ILLFORMED
 
 A *tree* is a Python expression over the urwid namespace (plus three builders defined here:
 `bar_graph`, `list_box`, `tree_list_box`), so every failure detail carries a copy-and-paste reproduction.
@@ -24,7 +27,11 @@ encoding, clears the canvas cache, and restores both afterwards.
 Readings of the statement adopted (oracle decisions):
   * "valid for a sizing mode the widget reports": the modes are exactly `widget.sizing()`; a mode that is
     not reported is not exercised; all sizes >= 1 in the bound are valid for box/flow (the quantifier says
-    "all sizes >= 1 including 1-column and 1-row"), so "the configured widths do not fit" is not an excuse.
+    "all sizes >= 1 including 1-column and 1-row"), so "the configured widths / paddings do not fit" is not
+    an excuse: the canvas must still have the requested size.
+  * "widget tree": every child sits in a slot whose sizing mode the child reports (documentation-derived
+    rules in `demands`); `Pile([(2, Text('x'))])` ("always treat widget as a box widget") is a usage error.
+    Reported modes of such trees are judged only by the auxiliary check.
   * A constructor that rejects an option combination produces no tree: such expressions are skipped and
     counted (`unbuildable`), never reported as failures.
   * flow: rows() is asked before and after the render; both must equal the canvas height ("the widget's own
@@ -32,6 +39,8 @@ Readings of the statement adopted (oracle decisions):
   * a 0-row flow canvas / 0-column fixed canvas is accepted when rows()/pack() say so (content() is then
     not iterated: there is nothing to be rectangular).
   * `Terminal` (urwid.vterm) is excluded: it needs a pty and a child process.
+  * bytes texts in the 'wide' mode stay inside JIS X 0208 (urwid documents "JISX 0208 only" for euc-jp).
+The failure grouping (`_signature`, `failure_summary`) is diagnostics, not part of the oracle.
 """
 from __future__ import annotations
 
@@ -119,6 +128,150 @@ NS = _namespace()
 
 
 # ------------------------------------------------------------------------------------------------
+# well-formed trees: which sizing mode a container asks of each child, from urwid's *documentation*
+# (constructor docstrings and the "Rules:" lists in the sizing() docstrings), not from its code paths
+# ------------------------------------------------------------------------------------------------
+# Reading adopted: "every widget tree ... valid for a sizing mode the widget reports" ranges over trees
+# in which every child sits in a slot whose sizing mode the child itself reports -- e.g. Pile's
+# `(given_height, w)` "always treat[s] w as a box widget", so `Pile([(2, Text('x'))])` is a usage error,
+# not a tree (urwid answers it with a PileWarning and a fallback sizing).  A (tree, mode) pair that the
+# root reports but that is not well-formed by the rules below is NOT judged by the main checks; it is
+# counted, and probed at one size, in the auxiliary check `C01/aux-reported-mode-of-illformed-tree`
+# (the literal reading of the statement, kept apart for a decision).
+# `demands(w, M)` -> list of (child, candidate modes) or None when the documentation gives the widget no
+# mode M with these options.  When the documentation leaves open which of several modes the child is
+# asked for (a fixed/flow Text in a 'pack' slot), every candidate must be reported by the child.
+def _S(w):
+    return {str(getattr(s, "value", s)) for s in w.sizing()}
+
+
+def demands(w, M):
+    t = type(w)
+    U = urwid
+    if t in (U.AttrMap, U.AttrWrap, U.WidgetPlaceholder, U.WidgetDisable, U.PopUpLauncher):
+        return [(w.original_widget, [M])]
+    if t is U.LineBox:
+        # the child is the weighted middle column between the side lines: as a fixed widget it also has to say
+        # how it fills a width ("WEIGHT FIXED -> Need also FLOW or/and BOX", Columns.sizing), whichever it reports
+        c = w.original_widget
+        return [(c, [M] + (sorted(_S(c) & {"flow", "box"}) if M == "fixed" else []))]
+    if t is U.WidgetWrap:
+        return [(w._w, [M])]
+    if t is U.PopUpTarget:
+        return [(w.original_widget, ["box"])] if M == "box" else None
+    if t is U.BoxAdapter:
+        return [(w.original_widget, ["box"])] if M == "flow" else None
+    if t is U.Padding:
+        c, wt = w.original_widget, str(w._width_type.value)
+        if wt == "clip":  # "this padding widget will behave as a flow widget and original_widget will be treated as a fixed widget"
+            return [(c, ["fixed"])] if M == "flow" else None
+        if wt == "given":  # "FIXED is supported, and wrapped widget should support FLOW"
+            return [(c, [{"box": "box", "flow": "flow", "fixed": "flow"}[M]])]
+        if wt == "pack":  # "try to pack original_widget to its ideal size": pack((width,)) then render
+            return [(c, {"box": ["box", "flow"], "flow": ["flow"], "fixed": ["fixed"]}[M])]
+        return [(c, [M])]  # relative
+    if t is U.Filler:
+        c, ht = w.original_widget, str(w.height_type.value)
+        if ht == "pack":  # "'pack' if body is a flow widget"
+            return [(c, ["flow"])] if M in ("box", "flow") else None
+        if ht == "given":
+            return [(c, ["box"])] if M in ("box", "flow") else None
+        return [(c, ["box"])] if M == "box" else None
+    if t is U.Pile:
+        out = []
+        gives_width = False
+        for c, (kind, amount) in w.contents:
+            kind = str(getattr(kind, "value", kind))  # the options keep whatever the caller passed: the enum or its plain string
+            S = _S(c)
+            if kind == "given":  # "always treat widget as a box widget"
+                out.append((c, ["box"]))
+            elif kind == "pack":  # "treat it as a flow widget"; sizing(): PACK FIXED -> FIXED
+                if M == "fixed":
+                    out.append((c, sorted(S & {"fixed", "flow"})))
+                    gives_width |= "fixed" in S
+                else:
+                    out.append((c, ["flow"] if "flow" in S else ["fixed"]))
+            elif M == "box":  # weight: "if the pile is treated as a box widget then treat widget as a box widget"
+                out.append((c, ["box"]))
+            elif M == "flow":  # "otherwise treat the same as ('pack', widget)"; WEIGHT FIXED needs FLOW
+                out.append((c, ["flow"]))
+            else:  # fixed pile, weight slot: "WEIGHT FIXED -> Need also FLOW or/and BOX"
+                if "fixed" in S:
+                    out.append((c, ["fixed", *sorted(S & {"flow", "box"})] if S & {"flow", "box"} else []))
+                    gives_width = True
+                else:  # "WEIGHT FLOW -> FLOW": laid out at the width the fixed children give
+                    out.append((c, ["flow"]))
+        if M == "fixed" and not gives_width:
+            return None
+        return out
+    if t is U.Columns:
+        out = []
+        free = 0
+        for c, (kind, amount, is_box) in w.contents:
+            kind = str(getattr(kind, "value", kind))  # the options keep whatever the caller passed: the enum or its plain string
+            S = _S(c)
+            if kind == "pack" and not S & {"fixed", "flow"}:  # "PACK BOX -> Unsupported" (also inside box_columns)
+                return None
+            if M == "box":  # "BOX can be only if ALL widgets support BOX"; "PACK BOX -> Unsupported"
+                if kind == "pack":
+                    return None
+                out.append((c, ["box"]))
+            elif is_box:  # box_columns: rendered as a box as tall as the other columns
+                out.append((c, ["box"]))
+            elif M == "flow":
+                free += 1
+                if kind == "pack":  # "PACK FLOW -> FLOW", "PACK FIXED -> FIXED"
+                    out.append((c, sorted(S & {"fixed", "flow"})))
+                else:
+                    out.append((c, ["flow"]))
+            else:  # fixed
+                free += 1
+                if kind == "pack":
+                    out.append((c, sorted(S & {"fixed", "flow"})))
+                elif kind == "given":  # "GIVEN FLOW -> FIXED (known width and widget knows its height)"
+                    out.append((c, ["flow"]))
+                else:  # "WEIGHT FIXED -> Need also FLOW or/and BOX"
+                    out.append((c, ["fixed", *sorted(S & {"flow", "box"})] if S & {"flow", "box"} else []))
+        if M != "box" and w.contents and not free:
+            return None
+        return out
+    if t is U.GridFlow:  # "cells: iterable of flow widgets"
+        return [(c, ["flow"]) for c, _o in w.contents] if M in ("flow", "fixed") else None
+    if t is U.Frame:
+        if M != "box":
+            return None
+        return [(w.body, ["box"])] + [(x, ["flow"]) for x in (w.header, w.footer) if x is not None]
+    if t is U.ListBox:
+        return [(c, ["flow"]) for c in w.body] if M == "box" else None
+    if t is U.Overlay:
+        wt, ht = str(w.width_type.value), str(w.height_type.value)
+        top = "fixed" if wt == "pack" else "flow" if ht == "pack" else "box"  # "'pack' if top_w is a fixed widget" / "a flow or fixed widget"
+        return [(w.bottom_w, ["box"]), (w.top_w, [top])]
+    if t is U.Scrollable:  # "makes a fixed or flow widget vertically scrollable"
+        return [(w.original_widget, sorted(_S(w.original_widget) & {"fixed", "flow"}))] if M == "box" else None
+    if t is U.ScrollBar:  # "widget must be a box widget"
+        return [(w.original_widget, ["box"])] if M == "box" else None
+    return []  # leaves (incl. the bundled composites Button/CheckBox/TreeListBox/..., whose inner trees are urwid's own)
+
+
+def well_formed(w, M):
+    """(ok, reason). ok iff M is reported by w and every child is asked only for modes it reports, recursively."""
+    if M not in _S(w):
+        return False, f"{type(w).__name__} does not report {M}"
+    d = demands(w, M)
+    if d is None:
+        return False, f"{type(w).__name__} with these options has no documented {M} mode"
+    for c, cands in d:
+        if not cands:
+            return False, f"{type(c).__name__} reports no mode usable in its slot of a {M} {type(w).__name__}"
+        for m in cands:
+            ok, why = well_formed(c, m)
+            if not ok:
+                return False, f"in a {M} {type(w).__name__}: {why}"
+    return True, ""
+
+
+# ------------------------------------------------------------------------------------------------
 # the oracle
 # ------------------------------------------------------------------------------------------------
 def own_char_width(ch):
@@ -170,7 +323,8 @@ def own_segment_width(cs, bs, mode):
 def _exc(e):
     frames = [f for f in traceback.extract_tb(e.__traceback__) if "urwid" in f.filename]
     where = " <- ".join(f"{os.path.basename(f.filename)}:{f.lineno} {f.name}" for f in reversed(frames[-3:]))
-    return f"{type(e).__name__}: {' '.join(str(e).split())[:160]} [at {where}]"
+    msg = re.sub(r"Widget <(\w+).*> rendered", r"Widget <\1 ...> rendered", " ".join(str(e).split()))  # drop the (long, nested) widget repr
+    return f"{type(e).__name__}: {msg[:160]} [at {where}]"
 
 
 def _mode_of(size):
@@ -258,8 +412,7 @@ def judge(code, mode, size, focus):
 
     if size:
         try:
-            w2 = eval(code, NS)  # noqa: S307
-            w2.pack(size, focus)
+            w.pack(size, focus)
             res["pack-succeeds"] = (True, "")
         except Exception as e:  # noqa: BLE001
             res["pack-succeeds"] = (False, f"pack({size}, {focus}) raised {_exc(e)}")
@@ -295,8 +448,10 @@ def _classes(expr):
 
 
 def _signature(d):
-    why = re.sub(r"b?'[^']*'|b?\"[^\"]*\"|[0-9]+", "#", d["why"])
+    why = d["why"]
+    why = re.sub(r"b?'[^']*'|b?\"[^\"]*\"|[0-9]+", "#", why)
     why = re.sub(r"<[^>]*>", "<w>", why)
+    why = re.sub(r", (True|False)\)", ", F)", why)
     return f"{d['clause']}|{_classes(d['expr'])}|{_mode_of(d['size'])}|{why[:90]}"
 
 
@@ -427,9 +582,12 @@ def texts(enc, mode, thorough):
     byt = [b"a", b"ab cd", b"\x0eqx\x0fy"]
     for s in ("中", "a中b", "e\u0301x", "\u0301", "\xe9t\xe9") + (("中文字", "a\u0301\u0302中 b\n\u0301") if thorough else ()):
         try:
-            byt.append(s.encode(enc))
+            b = s.encode(enc)
         except UnicodeEncodeError:
-            pass
+            continue
+        if mode == "wide" and (b"\x8e" in b or b"\x8f" in b):
+            continue  # EUC-JP single-shift sequences (3-byte JIS X 0212, half-width kana): urwid documents "JISX 0208 only"
+        byt.append(b)
     out += [repr(b) for b in byt]
     return out
 
@@ -471,7 +629,7 @@ def leaves(enc, mode, thorough):
         f"bar_graph({d}, {top}{o}{', nseg=2' if '4, 2' in d else ''})"
         for d in datas
         for top in (1, 5, 9)
-        for o in _kw(hlines=(..., [1], [4, 2]), bar_width=(..., 1, 2, 7), satt=(..., {(1, 0): "x"}))
+        for o in _kw(hlines=(..., [1], [4, 2]) if thorough else (..., [4, 2]), bar_width=(..., 1, 2, 7) if thorough else (..., 1, 2), satt=(..., {(1, 0): "x"}))
     ]
     fam["GraphVScale"] = [f"GraphVScale({lab}, {top})" for lab in ("[]", "[(1, 'a')]", "[(5, '5'), (2, '中'), (0, '0')]", "[(9, 'toolong')]") for top in (1, 5, 9)]
     fam["TreeListBox"] = [f"tree_list_box({lab}, {k}, {d})" for lab in ("'r'", "'中'", "'abcdefg'") for k in (0, 1, 3) for d in (0, 1, 2)]
@@ -525,6 +683,11 @@ def _diag(*domains, extra=()):
     return out
 
 
+def _six(C):
+    """text, wide text, Edit (cursor), SolidFill (box), BigText (fixed), ListBox -- see child_pool's order."""
+    return [C[i] for i in (0, 1, 4, 6, 7, 10)]
+
+
 def decorations(children, lvl):
     """family -> expressions wrapping each of `children` (expressions).
     lvl 0: a few option sets (outer level of the depth-3 sample); 1: quick (covering sets); 2: thorough (full product)."""
@@ -538,32 +701,28 @@ def decorations(children, lvl):
     widths = (3, "pack", ("relative", 50), "clip")
     if lvl == 0:
         pad = ["", ", 'center', 3", ", 'right', 'pack'", ", ('relative', 30), ('relative', 50), 2, 1, 1", ", 'left', 'clip'"]
-    elif lvl == 1:
-        pad = [""] + [f", {a!r}, {w!r}{o}" for a, w, o in _diag(aligns, widths, ("", ", min_width=2", ", left=1, right=1", ", left=2", ", min_width=2, left=2, right=1"))]
-        pad += [f", {a!r}, {w!r}, left=7" for a, w in (("left", 3), ("center", "pack"), ("right", ("relative", 50)))]
-    else:
-        pad = [""] + [
-            f", {a!r}, {w!r}{o}"
-            for a in (*aligns, ("relative", 100), ("relative", 0))
-            for w in (*widths, 1, 8, ("relative", 100), ("relative", 1))
-            for o in _kw(min_width=(..., 2, 7), left=(..., 1, 2, 7), right=(..., 1))
-        ]
-    fam["Padding"] = [f"Padding({c}{p})" for c in C for p in pad]
+    pad_cov = [""] + [f", {a!r}, {w!r}{o}" for a, w, o in _diag(aligns, widths, ("", ", min_width=2", ", left=1, right=1", ", left=2", ", min_width=2, left=2, right=1"))]
+    pad_cov += [f", {a!r}, {w!r}, left=7" for a, w in (("left", 3), ("center", "pack"), ("right", ("relative", 50)))]
+    if lvl == 1:
+        pad = pad_cov
+    if lvl < 2:
+        fam["Padding"] = [f"Padding({c}{p})" for c in C for p in pad]
+    else:  # full product on six children (flow/wide/cursor/box/fixed/listbox), the covering set on all
+        pad = [f", {a!r}, {w!r}{o}" for a in (*aligns, ("relative", 100)) for w in (*widths, 1, 8) for o in _kw(min_width=(..., 2), left=(..., 1, 7), right=(..., 1))]
+        fam["Padding"] = [f"Padding({c}{p})" for c in _six(C) for p in pad] + [f"Padding({c}{p})" for c in C for p in pad_cov]
     valigns = ("top", "middle", "bottom", ("relative", 30))
     heights = ("pack", None, 2, ("relative", 50))
     if lvl == 0:
         fil = ["", ", 'top'", ", 'bottom', 2", ", ('relative', 30), ('relative', 50), 2, 1, 1", ", 'middle', None"]
-    elif lvl == 1:
-        fil = [""] + [f", {v!r}, {h!r}{o}" for v, h, o in _diag(valigns, heights, ("", ", min_height=2", ", top=1, bottom=1", ", top=1", ", min_height=2, bottom=1"))]
-        fil += [f", {v!r}, {h!r}, top=5" for v, h in (("top", 2), ("middle", "pack"), ("bottom", ("relative", 50)))]
+    fil_cov = [""] + [f", {v!r}, {h!r}{o}" for v, h, o in _diag(valigns, heights, ("", ", min_height=2", ", top=1, bottom=1", ", top=1", ", min_height=2, bottom=1"))]
+    fil_cov += [f", {v!r}, {h!r}, top=5" for v, h in (("top", 2), ("middle", "pack"), ("bottom", ("relative", 50)))]
+    if lvl == 1:
+        fil = fil_cov
+    if lvl < 2:
+        fam["Filler"] = [f"Filler({c}{f})" for c in C for f in fil]
     else:
-        fil = [""] + [
-            f", {v!r}, {h!r}{o}"
-            for v in (*valigns, ("relative", 100))
-            for h in (*heights, 1, 7, ("relative", 100), ("relative", 1))
-            for o in _kw(min_height=(..., 2, 7), top=(..., 1, 5), bottom=(..., 1))
-        ]
-    fam["Filler"] = [f"Filler({c}{f})" for c in C for f in fil]
+        fil = [f", {v!r}, {h!r}{o}" for v in (*valigns, ("relative", 100)) for h in ("pack", 2, ("relative", 50), 1, 7, ("relative", 100)) for o in _kw(min_height=(..., 2), top=(..., 1, 5), bottom=(..., 1))]
+        fam["Filler"] = [f"Filler({c}{f})" for c in _six(C) for f in fil] + [f"Filler({c}{f})" for c in C for f in fil_cov]
     if lvl == 0:
         lb = ["", ", 'T'", ", tline='', lline=''"]
     else:
@@ -599,12 +758,12 @@ def containers(children, flow_children, box_children, lvl):
     """family -> container expressions over `children` (expressions); lvl as in `decorations`."""
     fam = {}
     C = list(children)
-    items = pile_items(C, given=(2,) if lvl < 2 else (1, 3), weights=(2,), zero_weight=lvl == 2)
+    copts = ("", ", dividechars=1", ", box_columns=[0]", ", dividechars=1, box_columns=[1], focus_column=1", ", min_width=3")
     if lvl < 2:
+        items = pile_items(C)
         second = SECOND if lvl else SECOND[:4]
         pairs = [(a, b) for a in items for b in second]
         fam["Pile"] = ["Pile([])"] + [f"Pile([{a}])" for a in items] + [f"Pile([{a}, {b}])" for a, b in pairs] + [f"Pile([{b}, {a}], focus_item=1)" for a, b in pairs[:: 2 if lvl else 3]]
-        copts = ("", ", dividechars=1", ", box_columns=[0]", ", dividechars=1, box_columns=[1], focus_column=1", ", min_width=3")
         fam["Columns"] = ["Columns([])"] + [f"Columns([{a}]{o})" for a in items for o in (("", ", box_columns=[0]") if lvl else ("",))]
         fam["Columns"] += [f"Columns([{a}, {b}]{copts[(i + j) % len(copts)]})" for i, (a, b) in enumerate(pairs) for j in ((0, 1, 3) if lvl else (1,))]
         fam["Columns"] += [f"Columns([{b}, {a}]{copts[i % len(copts)]})" for i, (a, b) in enumerate(pairs[:: 2 if lvl else 3])]
@@ -613,41 +772,57 @@ def containers(children, flow_children, box_children, lvl):
             fam["Pile3"] = [f"Pile([{a}, {b}, {c}])" for a, b, c in triples]
             fam["Columns3"] = [f"Columns([{a}, {b}, {c}], dividechars={i % 2})" for i, (a, b, c) in enumerate(triples)]
     else:
-        fam["Pile"] = ["Pile([])"] + [f"Pile([{a}])" for a in items] + [f"Pile([{a}, {b}]{o})" for a in items for b in items for o in _kw(focus_item=(..., 1))]
-        fam["Pile3"] = [f"Pile([{a}, {b}, {c}])" for a in items[::2] for b in items[1::3] for c in items[::5]]
-        fam["Columns"] = ["Columns([])"] + [f"Columns([{a}]{o})" for a in items for o in _kw(box_columns=(..., [0]), min_width=(..., 3))]
-        fam["Columns"] += [f"Columns([{a}, {b}]{o})" for a in items for b in items for o in ("", ", dividechars=1", ", box_columns=[0]", ", box_columns=[1], focus_column=1")]
-        fam["Columns"] += [f"Columns([{a}, {b}]{o})" for a in items for b in SECOND for o in _kw(dividechars=(..., 1, 3), focus_column=(..., 1), box_columns=(..., [0], [1], [0, 1]), min_width=(..., 3))]
-        fam["Columns3"] = [f"Columns([{a}, {b}, {c}], dividechars={dv})" for a in items[::2] for b in items[1::3] for c in items[::5] for dv in (0, 1)]
+        # every ordered pair of (slot kind x child) over the 11 core children (5 slot kinds incl. weight 0); the 6 extra
+        # children paired with SECOND in both orders; Columns options cycled over all pairs and in full product with SECOND
+        items = pile_items(C[:11], zero_weight=True)
+        extra = pile_items(C[11:])
+        xpairs = [(a, b) for a in extra for b in SECOND]
+        fam["Pile"] = ["Pile([])"] + [f"Pile([{a}])" for a in items + extra] + [f"Pile([{a}, {b}])" for a in items for b in items]
+        fam["Pile"] += [f"Pile([{b}, {a}], focus_item=1)" for a in items for b in SECOND] + [f"Pile([{a}, {b}])" for a, b in xpairs] + [f"Pile([{b}, {a}], focus_item=1)" for a, b in xpairs]
+        triples = [(a, b, c) for a in items[::3] for b in items[1::5] for c in items[::11]]
+        fam["Pile3"] = [f"Pile([{a}, {b}, {c}])" for a, b, c in triples]
+        fam["Columns"] = ["Columns([])"] + [f"Columns([{a}]{o})" for a in items + extra for o in _kw(box_columns=(..., [0]), min_width=(..., 3))]
+        fam["Columns"] += [f"Columns([{a}, {b}]{copts[(i + i // 55) % len(copts)]})" for i, (a, b) in enumerate((a, b) for a in items for b in items)]
+        fam["Columns"] += [f"Columns([{a}, {b}]{o})" for a in items for b in SECOND for o in _kw(dividechars=(..., 1), box_columns=(..., [0], [1], [0, 1]))]
+        fam["Columns"] += [f"Columns([{b}, {a}]{o}, focus_column=1)" for a in items for b in SECOND for o in _kw(dividechars=(..., 3), box_columns=(..., [1]), min_width=(..., 3))]
+        fam["Columns"] += [f"Columns([{a}, {b}]{copts[i % len(copts)]})" for i, (a, b) in enumerate(xpairs)] + [f"Columns([{b}, {a}]{copts[i % len(copts)]})" for i, (a, b) in enumerate(xpairs)]
+        fam["Columns3"] = [f"Columns([{a}, {b}, {c}], dividechars={i % 2})" for i, (a, b, c) in enumerate(triples)]
     F = list(flow_children)
-    cells = [[]] + [[a] for a in F] + [[a, b] for a in F for b in F[: 3 if lvl == 2 else 1]] + [[F[0], a, F[0], a, F[0]] for a in F[:4]]
+    cells = [[]] + [[a] for a in F] + [[a, b] for a in F for b in F[: 2 if lvl == 2 else 1]] + [[F[0], a, F[0], a, F[0]] for a in F[:4]]
     galign = ("left", "center", "right", ("relative", 30))
     if lvl == 0:
         fam["GridFlow"] = [f"GridFlow([{', '.join(cs)}], {cw}, 1, 1, 'center')" for cs in cells[::2] for cw in (1, 3)]
     elif lvl == 1:
         fam["GridFlow"] = [f"GridFlow([{', '.join(cs)}], {cw}, {hs}, {vs}, {al!r})" for cs in cells for cw, hs, vs, al in _diag((1, 3, 7), (0, 1), (0, 1, 1), galign)]
     else:
-        fam["GridFlow"] = [f"GridFlow([{', '.join(cs)}], {cw}, {hs}, {vs}, {al!r})" for cs in cells for cw in (1, 2, 3, 7, 10) for hs in (0, 1, 3) for vs in (0, 1) for al in galign]
+        fam["GridFlow"] = [f"GridFlow([{', '.join(cs)}], {cw}, {hs}, {(i + j) % 2}, {al!r})" for cs in cells for i, cw in enumerate((1, 3, 7, 10)) for hs in (0, 1) for j, al in enumerate(galign)]
+        fam["GridFlow"] += [f"GridFlow([{', '.join(cs)}], 2, 3, 1, 'center')" for cs in cells]
     B = list(box_children)
-    hf = ["None"] + F[: (4 if lvl < 2 else len(F))]
+    hf = ["None"] + F[: (4 if lvl < 2 else 6)]
     if lvl == 0:
         fam["Frame"] = [f"Frame({b}, {h}, {f})" for b in B for h in hf[:3] for f in hf[:2]]
     else:
         fam["Frame"] = [f"Frame({b}, {h}, {f}, {fp!r})" for b in B for h in hf for f in hf for fp in ("body", "header", "footer") if not (fp == "header" and h == "None") and not (fp == "footer" and f == "None")]
-    bottoms = ["SolidFill('.')"] + (["Filler(Text('bottom'))", "list_box([Text('b')])"] if lvl == 2 else [])
     oa = ("left", "center", "right", ("relative", 30))
     ow = (3, "pack", ("relative", 50), None)
     ovl = ("top", "middle", "bottom", ("relative", 30))
     oh = (2, "pack", ("relative", 50), None)
     if lvl == 0:
         ov = ["'center', 3, 'middle', 2", "'left', 'pack', 'top', 'pack'", "('relative', 30), ('relative', 50), ('relative', 30), ('relative', 50)", "'right', None, 'bottom', None"]
-    elif lvl == 1:
-        ox = ("", "", ", min_width=2, min_height=2", "", ", left=2, right=1, top=1, bottom=2")
-        ov = [f"{a!r}, {w!r}, {v!r}, {h!r}{o}" for w, h, a, v, o in _diag(ow, oh, oa, ovl, ox)] + [f"{a!r}, {w!r}, {v!r}, {h!r}{o}" for a, v, w, h, o in _diag(oa, ovl, ow[1:] + ow[:1], oh[2:] + oh[:2], ox[1:] + ox[:1])]
     else:
-        ov = [f"{a!r}, {w!r}, {v!r}, {h!r}" for a in oa for w in (*ow, 8) for v in ovl for h in (*oh, 7)]
-        ov += [f"{a!r}, {w!r}, {v!r}, {h!r}{o}" for w, h, a, v in _diag(ow, oh, oa, ovl) for o in _kw(min_width=(..., 2), min_height=(..., 2), left=(..., 2), right=(..., 1), top=(..., 1), bottom=(..., 2))]
-    fam["Overlay"] = [f"Overlay({t}, {b}, {o})" for t in C for b in bottoms for o in ov]
+        ov = [f"{a!r}, {w!r}, {v!r}, {h!r}" for a in oa for w in ow for v in ovl for h in oh]
+        ov += [f"{a!r}, 8, {v!r}, {h!r}" for a, v, h in _diag(oa, ovl, oh)] + [f"{a!r}, {w!r}, {v!r}, 7" for a, v, w in _diag(oa, ovl, ow)]
+    ox = ("", "", ", min_width=2, min_height=2", "", ", left=2, right=1, top=1, bottom=2")
+    ov_cov = [f"{a!r}, {w!r}, {v!r}, {h!r}{o}" for w, h, a, v, o in _diag(ow, oh, oa, ovl, ox)] + [f"{a!r}, {w!r}, {v!r}, {h!r}{o}" for a, v, w, h, o in _diag(oa, ovl, ow[1:] + ow[:1], oh[2:] + oh[:2], ox[1:] + ox[:1])]
+    if lvl == 1:
+        ov = ov_cov
+    if lvl < 2:
+        fam["Overlay"] = [f"Overlay({t}, SolidFill('.'), {o})" for t in C for o in ov]
+    else:
+        fam["Overlay"] = [f"Overlay({t}, SolidFill('.'), {o})" for t in C[:11] for o in ov] + [f"Overlay({t}, SolidFill('.'), {o})" for t in C[11:] for o in ov_cov]
+        ovx = [f"{a!r}, {w!r}, {v!r}, {h!r}{o}" for w, h, a, v in _diag(ow, oh, oa, ovl) for o in _kw(min_width=(..., 2), min_height=(..., 2), left=(..., 2), bottom=(..., 2))]
+        fam["Overlay"] += [f"Overlay({t}, SolidFill('.'), {o})" for t in _six(C) for o in ovx]
+        fam["Overlay"] += [f"Overlay({t}, {b}, {o})" for t in C[:11] for b in ("Filler(Text('bottom'))", "list_box([Text('b')])") for o in ov_cov[::2]]
     lists = [[]] + [[a] for a in F] + [[a, b] for a in F[:5] for b in F[:5]] + [[F[0], a, F[0], a, F[0], a] for a in F[:4]]
     if lvl == 0:
         fam["ListBox"] = [f"list_box([{', '.join(ls)}])" for ls in lists[::2]]
@@ -712,62 +887,76 @@ def depth3_sample(enc, mode, tier, seed, count):
 # ------------------------------------------------------------------------------------------------
 # running
 # ------------------------------------------------------------------------------------------------
-def sizes_for(sizing, maxc, maxr):
-    names = {str(getattr(s, "value", s)) for s in sizing}
-    out = []
-    if "fixed" in names:
-        out.append(())
-    if "flow" in names:
-        out += [(c,) for c in range(1, maxc + 1)]
-    if "box" in names:
-        out += [(c, r) for c in range(1, maxc + 1) for r in range(1, maxr + 1)]
-    return out
+AUX = "aux-reported-mode-of-illformed-tree"
+PROBE = {"fixed": (), "flow": (3,), "box": (3, 2)}
+REPORT_ILLFORMED = True  # set to False to drop the auxiliary (literal-reading) check from the results
 
 
-def run_tree(expr, enc, mode, maxc, maxr, tallies, single=None, stats=None):
+def sizes_for(M, maxc, maxr):
+    if M == "fixed":
+        return [()]
+    if M == "flow":
+        return [(c,) for c in range(1, maxc + 1)]
+    return [(c, r) for c in range(1, maxc + 1) for r in range(1, maxr + 1)]
+
+
+def run_tree(expr, enc, mode, maxc, maxr, tallies, single=False, stats=None):
     """All sizes x focus for one tree under one encoding (must be called with the encoding set).
-    `tallies`: clause -> Tally, or a single Tally when `single` is True (depth-3: first failing clause)."""
+    `tallies`: clause -> Tally (+ AUX); when `single` (depth-3) the clauses go to tallies['d3'], first failing clause."""
+    stats = stats if stats is not None else {}
+
+    def bump(k):
+        stats[k] = stats.get(k, 0) + 1
+
     try:
         code = compile(expr, "<tree>", "eval")
         w = eval(code, NS)  # noqa: S307
     except Exception as e:  # noqa: BLE001  -- constructor refused: not a tree
-        if stats is not None:
-            stats["unbuildable"] = stats.get("unbuildable", 0) + 1
-            stats.setdefault("unbuildable_samples", [])
-            if len(stats["unbuildable_samples"]) < 5:
-                stats["unbuildable_samples"].append(f"{expr}: {type(e).__name__}: {str(e)[:80]}")
+        bump("unbuildable")
+        stats.setdefault("unbuildable_samples", [])
+        if len(stats["unbuildable_samples"]) < 5:
+            stats["unbuildable_samples"].append(f"{expr}: {type(e).__name__}: {str(e)[:80]}")
         return
     try:
-        sizing = w.sizing()
-        sizes = sizes_for(sizing, maxc, maxr)
+        verdicts = [(M, *well_formed(w, M)) for M in ("fixed", "flow", "box") if M in _S(w)]
     except Exception as e:  # noqa: BLE001
         why = f"sizing() raised {_exc(e)}"
-        t = tallies if single else tallies["render-succeeds"]
+        t = tallies["d3"] if single else tallies["render-succeeds"]
         t.case(False, lambda: detail(expr, enc, (), False, "render-succeeds", why, {}), True, None)
         return
-    if stats is not None:
-        stats["trees"] = stats.get("trees", 0) + 1
-        if not sizes:
-            stats["no_sizing_mode"] = stats.get("no_sizing_mode", 0) + 1
-    for size in sizes:
-        for focus in (False, True):
-            CanvasCache.clear()
-            res, obs = judge(code, mode, size, focus)
-            sample = {"expr": expr, "enc": enc, "size": list(size), "focus": focus}
-            if single:
-                bad = [(c, r[1]) for c, r in res.items() if not r[0]]
-                tallies.case(not bad, lambda: detail(expr, enc, size, focus, bad[0][0], bad[0][1], obs), True, sample)  # noqa: B023
-                continue
-            for clause, r in res.items():
-                nontrivial = r[2] if len(r) > 2 else True
-                tallies[clause].case(r[0], lambda: detail(expr, enc, size, focus, clause, r[1], obs), nontrivial, sample)  # noqa: B023
+    bump("trees")
+    if not any(ok for _M, ok, _why in verdicts):
+        bump("trees_without_wellformed_mode")
+    for M, ok, ill in verdicts:
+        if not ok:
+            bump("illformed_tree_modes")
+            if REPORT_ILLFORMED:
+                for focus in (False, True):
+                    CanvasCache.clear()
+                    res, obs = judge(code, mode, PROBE[M], focus)
+                    bad = [(c, r[1]) for c, r in res.items() if not r[0]]
+                    tallies[AUX].case(not bad, lambda: detail(expr, enc, PROBE[M], focus, bad[0][0], f"[{ill}] {bad[0][1]}", obs), True, {"expr": expr, "enc": enc, "mode": M})  # noqa: B023
+            continue
+        bump("wellformed_tree_modes")
+        for size in sizes_for(M, maxc, maxr):
+            for focus in (False, True):
+                CanvasCache.clear()
+                res, obs = judge(code, mode, size, focus)
+                sample = {"expr": expr, "enc": enc, "size": list(size), "focus": focus}
+                if single:
+                    bad = [(c, r[1]) for c, r in res.items() if not r[0]]
+                    tallies["d3"].case(not bad, lambda: detail(expr, enc, size, focus, bad[0][0], bad[0][1], obs), True, sample)  # noqa: B023
+                    continue
+                for clause, r in res.items():
+                    nontrivial = r[2] if len(r) > 2 else True
+                    tallies[clause].case(r[0], lambda: detail(expr, enc, size, focus, clause, r[1], obs), nontrivial, sample)  # noqa: B023
 
 
 def _task(args):
     kind, ei, exprs, maxc, maxr = args
     enc, mode = ENCODINGS[ei]
     stats = {}
-    tallies = Tally() if kind == "d3" else {c: Tally() for c in CLAUSES}
+    tallies = {c: Tally() for c in (*CLAUSES, AUX, "d3")}
 
     def body():
         for e in exprs:
@@ -777,13 +966,19 @@ def _task(args):
     return kind, tallies, stats
 
 
+BIG = ("Pile", "Pile3", "Columns", "Columns3", "Overlay", "Padding", "Filler", "GridFlow", "ListBox", "LineBox")
+
+
 def _bounds(tier):
-    # (max cols, max rows, number of sampled depth-3 trees per encoding)
-    return (6, 4, 150) if tier == "quick" else (6, 4, 6000)
+    """(leaf max cols, rows), (nested max cols, rows), depth-3 sample per encoding, stride of the big families
+    in the two non-UTF-8 encodings (quick only: every other tree, offset by the encoding)."""
+    if tier == "quick":
+        return (6, 4), (5, 3), 100, 2
+    return (6, 4), (6, 4), 1500, 1
 
 
 def _plan(tier, seed):
-    maxc, maxr, n3 = _bounds(tier)
+    leaf_sz, nest_sz, n3, stride = _bounds(tier)
     tasks = []
     counts = {"d1": 0, "d2": 0, "d3": 0}
     fams = {"d1": set(), "d2": set()}
@@ -793,46 +988,50 @@ def _plan(tier, seed):
             for fam, exprs in group.items():
                 fams[kind].add(fam)
                 exprs = list(dict.fromkeys(exprs))
+                if kind == "d2" and ei and stride > 1 and fam in BIG:
+                    exprs = exprs[ei % stride :: stride]
                 counts[kind] += len(exprs)
                 step = 40 if kind == "d1" else 12
+                sz = leaf_sz if kind == "d1" else nest_sz
                 for i in range(0, len(exprs), step):
-                    tasks.append((kind, ei, exprs[i : i + step], maxc, maxr))
+                    tasks.append((kind, ei, exprs[i : i + step], *sz))
         d3 = depth3_sample(enc, mode, tier, seed * 10 + ei, n3)
         counts["d3"] += len(d3)
         for i in range(0, len(d3), 8):
-            tasks.append(("d3", ei, d3[i : i + 8], maxc, maxr))
-    return tasks, counts, fams, (maxc, maxr, n3)
+            tasks.append(("d3", ei, d3[i : i + 8], *nest_sz))
+    return tasks, counts, fams, (leaf_sz, nest_sz, n3, stride)
 
 
 def run(tier="quick", seed=0):
     t0 = time.time()
-    tasks, counts, fams, (maxc, maxr, n3) = _plan(tier, seed)
+    tasks, counts, fams, (leaf_sz, nest_sz, n3, stride) = _plan(tier, seed)
     # interleave heavy and light tasks deterministically; results are merged in task order
     procs = max(1, min(16, os.cpu_count() or 1))
     ctx = multiprocessing.get_context("fork")
     with ctx.Pool(procs) as pool:
         parts = pool.map(_task, tasks, chunksize=1)
-    total = {"d12": {c: Tally() for c in CLAUSES}, "d3": Tally()}
+    total = {c: Tally() for c in (*CLAUSES, AUX, "d3")}
     stats = {}
-    for kind, tallies, st in parts:
-        if kind == "d3":
-            total["d3"].merge(tallies)
-        else:
-            for c, t in tallies.items():
-                total["d12"][c].merge(t)
+    for _kind, tallies, st in parts:
+        for c, t in tallies.items():
+            total[c].merge(t)
         for k, v in st.items():
             if isinstance(v, list):
                 stats[k] = (stats.get(k, []) + v)[:5]
             else:
                 stats[k] = stats.get(k, 0) + v
     wall = time.time() - t0
+    quick = tier == "quick"
     bound = (
         f"{counts['d1']} leaf trees (families {', '.join(sorted(fams['d1']))}) and {counts['d2']} depth-2 trees "
-        f"(every decoration/container family {', '.join(sorted(fams['d2']))} over {len(child_pool('utf8', tier != 'quick'))} representative children, full product of the option sets in the source), "
-        f"summed over 3 encodings (utf-8, euc-jp, iso8859-1); every size: fixed (), flow 1..{maxc}, box 1..{maxc} x 1..{maxr} among the modes sizing() reports; both focus values; "
-        f"fresh widget per evaluation; {stats.get('unbuildable', 0)} expressions refused by a constructor and skipped, {stats.get('no_sizing_mode', 0)} trees reporting no sizing mode"
+        f"(every decoration/container family {', '.join(sorted(fams['d2']))} over {len(child_pool('utf8', not quick))} representative children; "
+        f"{'covering option sets (every option value, every pair of the two main options)' if quick else 'full products of the option sets on the core children, covering sets on the rest'}, see `decorations`/`containers`), "
+        f"counted per encoding and summed over utf-8, euc-jp, iso8859-1{' (the big families every other tree in the two non-UTF-8 encodings)' if stride > 1 else ''}; "
+        f"sizes: fixed (), flow 1..{leaf_sz[0]}, box 1..{leaf_sz[0]} x 1..{leaf_sz[1]} for leaves, flow 1..{nest_sz[0]}, box 1..{nest_sz[0]} x 1..{nest_sz[1]} for nested trees, among the modes sizing() reports; both focus values; "
+        f"fresh widget per evaluation; judged: the {stats.get('wellformed_tree_modes', 0)} (tree, encoding, mode) triples that are well-formed (every child asked only for modes it reports, per urwid's documentation), "
+        f"{stats.get('illformed_tree_modes', 0)} reported-but-ill-formed triples go to the auxiliary check; {stats.get('unbuildable', 0)} expressions refused by a constructor and skipped"
     )
-    checks = [MergedCheck(f"C01/{c}", rule, True, bound, total["d12"][c], wall).result() for c, rule in CLAUSES.items()]
+    checks = [MergedCheck(f"C01/{c}", rule, True, bound, total[c], wall).result() for c, rule in CLAUSES.items()]
     checks.append(
         MergedCheck(
             "C01/depth3-sampled",
@@ -843,6 +1042,17 @@ def run(tier="quick", seed=0):
             wall,
         ).result()
     )
+    if REPORT_ILLFORMED:
+        checks.append(
+            MergedCheck(
+                f"C01/{AUX}",
+                "auxiliary, literal reading: a mode the root's sizing() reports although a child sits in a slot whose mode the child does not report (ill-formed by urwid's documentation); all clauses probed at one size per mode",
+                True,
+                f"every (tree, reported mode) of the trees above that is not well-formed ({stats.get('illformed_tree_modes', 0)} pairs), probed at {PROBE}, both focus values",
+                total[AUX],
+                wall,
+            ).result()
+        )
     return {"checks": checks, "bound": bound, "stats": stats}
 
 
